@@ -47,10 +47,11 @@ class ValidatorOb(Obligation):
     ValueError => path ∧ Valid is unsatisfiable."""
     engine = "E1-generic+z3-paths"
 
-    def __init__(self, name, function, build, call, valid, expect=None, instance=None, data_checks=None):
+    def __init__(self, name, function, build, call, valid, expect=None, instance=None, data_checks=None, native_data=None):
         super().__init__(PID, name, function, instance=instance or {}, clause="accepts exactly the valid factor sets",
                          forall=["every dimension of every factor (independent atoms)"], enumerated=list(instance or {}))
         self.build, self.call, self.valid, self.expect, self.data_checks = build, call, valid, expect, data_checks
+        self.native_data = native_data
 
     def run(self):
         with B.symbolic_session(tenalg="core"):
@@ -76,7 +77,14 @@ class ValidatorOb(Obligation):
                     if self.data_checks is not None:
                         why = self.data_checks(p, obj)
                         if why:
-                            return Verdict(REFUTED, "path-condition", why, len(paths), None)
+                            wit = None
+                            if self.native_data is not None:
+                                try:
+                                    okn, info = self.native_data()
+                                    wit = dict(replayable=True, native_fails=not okn, observed=info, kind="data-test")
+                                except Exception as e:  # noqa
+                                    wit = dict(replayable=True, native_fails=False, observed=f"harness error {type(e).__name__}: {e}", kind="data-test")
+                            return Verdict(REFUTED, "path-condition", why, len(paths), wit)
                 elif isinstance(p.value, ValueError):
                     if p.ctx.data_path and all(v for _, v in p.ctx.data_path[-1:]):
                         continue  # rejected because of a data test (orthonormality): allowed
@@ -109,6 +117,8 @@ class ValidatorOb(Obligation):
         """Build concrete factors with the witness sizes and run the real validator natively (NumPy backend)."""
         import numpy as np
         import tensorly as tl
+        if witness.get("kind") == "data-test":
+            return self.native_data()
         env = _Env(witness["env"])
         rng = np.random.RandomState(witness.get("seed", 0))
 
@@ -442,10 +452,27 @@ def _validators(tier, cpt, tkt, ttt, trt, ttm, p2t):
                     if op != "max" or not ok:
                         return f"slice {i}: the tested quantity is not max|P_iᵀP_i − I|: {info}"
                 return None
+            def native_data(nI=nI, wts=wts):
+                """for every slice j: a factor set whose only defect is a non-orthonormal projection j must be rejected"""
+                import numpy as np
+                from ..oblig import _native_backend
+                rng = np.random.RandomState(0)
+                with _native_backend("core"):
+                    for j in range(nI):
+                        r = 2
+                        P = [np.linalg.qr(rng.standard_normal((4 + i, r)))[0] for i in range(nI)]
+                        P[j] = rng.standard_normal((4 + j, r))
+                        t = (np.ones(r) if wts else None, (rng.standard_normal((nI, r)), rng.standard_normal((r, r)), rng.standard_normal((3, r))), P)
+                        try:
+                            p2t._validate_parafac2_tensor(t)
+                            return False, f"a PARAFAC2 tensor whose projection {j} (of {nI}) is not orthonormal was accepted"
+                        except ValueError:
+                            pass
+                return True, "non-orthonormal projections rejected at every slice index"
             obs.append(ValidatorOb(f"{PID}/parafac2_tensor:_validate_parafac2_tensor/accepts-iff-valid[slices={nI},weights={wts}]",
                                    "tensorly.parafac2_tensor:_validate_parafac2_tensor", build, lambda o: p2t._validate_parafac2_tensor(o),
                                    lambda f: [f["q"][i] == f["ra"] for i in range(f["nI"])] + [f["rb"] == f["ra"], f["rc"] == f["ra"]] + ([f["c"] == f["ra"]] if f["wts"] else []),
-                                   lambda f: (tuple((f["J"][i], f["kc"]) for i in range(f["nI"])), f["ra"]), dict(n_slices=nI, weights=wts), data_checks=data_checks))
+                                   lambda f: (tuple((f["J"][i], f["kc"]) for i in range(f["nI"])), f["ra"]), dict(n_slices=nI, weights=wts), data_checks=data_checks, native_data=native_data))
     return obs
 
 
